@@ -154,7 +154,7 @@ struct Array {
         if (Size() == Capacity()) {
 #ifdef HANIAMMAR_QENTEM_ENGINE_VERIF
             // Verification hook: exact-fit growth, so the end of the block is the logical end of the array.
-            resize(Capacity() + SizeT{1});
+            resize((Capacity() < SizeT{1024}) ? (Capacity() + SizeT{1}) : (Capacity() * SizeT{2}));
 #else
             resize((Capacity() | (Capacity() == 0)) * SizeT{2});
 #endif
@@ -168,7 +168,7 @@ struct Array {
         if (Size() == Capacity()) {
 #ifdef HANIAMMAR_QENTEM_ENGINE_VERIF
             // Verification hook: exact-fit growth, so the end of the block is the logical end of the array.
-            resize(Capacity() + SizeT{1});
+            resize((Capacity() < SizeT{1024}) ? (Capacity() + SizeT{1}) : (Capacity() * SizeT{2}));
 #else
             resize((Capacity() | (Capacity() == 0)) * SizeT{2});
 #endif
